@@ -64,6 +64,31 @@ class Check:
             self.bad(rule, key, what, detail)
         return cond
 
+    def sibling(self):
+        """a scratch collector for running another property's rules whose results are then included selectively"""
+        return type(self)(self.pid, self.tier, self.level, self.explanation)
+
+    def include(self, sub, rules, prefix, why):
+        """make the results of `rules` (collected in `sub`) part of this property's verdict: an obligation this property's own
+        argument assumes (a component contract), discharged by the rule of the property that owns the component"""
+        for r in rules:
+            src = sub.rules.get(r)
+            name = "%s.%s" % (prefix, r)
+            self.rule(name, floor=(src["floor"] if src else 1), doc="%s [included: %s]" % (src["doc"] if src else r, why))
+            badkeys = set()
+            for v in sub.violations:
+                if v["rule"] == r:
+                    k = v["key"].split("|", 2)[2]
+                    badkeys.add(k)
+                    if k == "floor":
+                        continue
+                    self.bad(name, k, v["what"], v.get("detail"))
+            for (rr_, k) in sorted(sub.keys, key=repr):
+                if rr_ == r and k not in badkeys:
+                    self.ok(name, k)
+        for t in sub.trusted:
+            self.trust(t)
+
     def assume(self, text):
         if text not in self.assumptions:
             self.assumptions.append(text)
